@@ -4,14 +4,20 @@ import (
 	"bytes"
 	"encoding/json"
 	"fmt"
+	"math/big"
+	"strconv"
 	"strings"
 	"unsafe"
+
+	"github.com/cockroachdb/apd/v2"
+	compact_float "github.com/kstenerud/go-compact-float"
 
 	"github.com/kstenerud/go-concise-encoding/cbe"
 	"github.com/kstenerud/go-concise-encoding/ce"
 	"github.com/kstenerud/go-concise-encoding/configuration"
 	"github.com/kstenerud/go-concise-encoding/cte"
 	"github.com/kstenerud/go-concise-encoding/rules"
+	"verif/harness/internal/codec"
 	"verif/harness/internal/ev"
 	"verif/harness/internal/fx"
 )
@@ -392,6 +398,90 @@ func c07Run(c *fx.Ctx) {
 		cyc := &c07Cyc{V: 1}
 		cyc.Next = cyc
 		c07Marshal(c, "cyclic-without-recursion-support", cyc, false)
+	}
+	// family 8: a lying length in front of a substantial payload: every array type byte × huge declared element counts ×
+	// 70000 / 140000 bytes that really follow, then EOF — through the raw decoders (no rules) and with rules
+	for _, tb := range []byte{0x90, 0x91, 0x92, 0x93, 0x94, 0x95, 0x96, 0x97, 0x98, 0x99, 0x9a, 0x9b, 0x9c, 0x9d, 0x9e, 0x9f} {
+		if !c.Take() {
+			continue
+		}
+		c.Checkpoint()
+		for _, declared := range []uint64{1 << 40, 1 << 62, 1<<31 + 1} {
+			for _, actual := range []int{70000, 140000} {
+				in := []byte{0x81, 0x00}
+				switch {
+				case tb >= 0x97 && tb <= 0x9b: // containers / non-array types: put a uint8 array inside a list instead
+					in = append(in, 0x9a, 0x93)
+				default:
+					in = append(in, tb)
+				}
+				in = append(in, uleb(declared<<1)...)
+				pay := make([]byte, actual)
+				for i := range pay {
+					pay[i] = byte('a' + i%26)
+				}
+				in = append(in, pay...)
+				for _, rulesOn := range []bool{false, true} {
+					cfg := c07Config(rulesOn, false)
+					c.TraceInput(func() string {
+						return fmt.Sprintf("lying-length type=%02x declared=%d actual=%d rules=%v", tb, declared, actual, rulesOn)
+					})
+					c07Try(c, "cbe.Decoder.Decode(reader)", in[:16], "", func() error {
+						rec := &ev.Recorder{}
+						if rulesOn {
+							return cbe.NewDecoder(cfg).Decode(bytes.NewReader(in), rules.NewRules(rec, cfg))
+						}
+						return cbe.NewDecoder(cfg).Decode(bytes.NewReader(in), rec)
+					})
+					c07Try(c, "cbe.Decoder.DecodeDocument", in[:16], "", func() error {
+						rec := &ev.Recorder{}
+						if rulesOn {
+							return cbe.NewDecoder(cfg).DecodeDocument(in, rules.NewRules(rec, cfg))
+						}
+						return cbe.NewDecoder(cfg).DecodeDocument(in, rec)
+					})
+					c07Try(c, "ce.UnmarshalCE", in[:16], "nil", func() error { _, err := ce.UnmarshalCE(bytes.NewReader(in), nil, cfg); return err })
+					c07Try(c, "ce.UnmarshalFromCBEDocument", in[:16], "nil", func() error { _, err := ce.UnmarshalFromCBEDocument(in, nil, cfg); return err })
+				}
+			}
+		}
+		c.Distinct("nontrivial", fmt.Sprintf("f8-%02x", tb))
+	}
+	// family 9: numbers at the ends of the exponent range into every numeric template (a conversion must not start an
+	// astronomically long computation): coefficient × exponent × sign, as CTE text and as CBE decimal floats
+	type numTpl struct {
+		name string
+		t    interface{}
+	}
+	numTpls := []numTpl{{"nil", nil}, {"*big.Int", (*big.Int)(nil)}, {"big.Int", big.Int{}}, {"int64", int64(0)}, {"uint64", uint64(0)}, {"int8", int8(0)}, {"float64", float64(0)}, {"float32", float32(0)},
+		{"*big.Float", (*big.Float)(nil)}, {"big.Float", big.Float{}}, {"*apd.Decimal", (*apd.Decimal)(nil)}, {"apd.Decimal", apd.Decimal{}}, {"compact_float.DFloat", compact_float.DFloat{}}, {"[]interface{}", []interface{}{}}}
+	for _, coef := range []string{"1", "15", "123", "9999999999999999999", "123456789012345678901234567890"} {
+		for _, exp := range []int64{2147483647, 2147483646, 2147483640, 2147483600, 1000000000, 100000000, 1000000, -2147483648, -2147483647, -2147483600, -1000000000, -1000000} {
+			if !c.Take() {
+				continue
+			}
+			c.Checkpoint()
+			for _, sign := range []string{"", "-"} {
+				text := []byte(fmt.Sprintf("c0 %s%se%d", sign, coef, exp))
+				var bin []byte
+				if cv, err := strconv.ParseInt(coef, 10, 64); err == nil {
+					if sign == "-" {
+						cv = -cv
+					}
+					bin, _, _ = codec.Encode(codec.CBE, []ev.E{ev.EBD(), ev.EV(0), ev.EDFloat(compact_float.DFloatValue(int32(exp), cv)), ev.EED()}, nil, true)
+				}
+				for _, t := range numTpls {
+					c.TraceInput(func() string { return fmt.Sprintf("extreme-number %s into %s", text, t.name) })
+					cfg := configuration.New()
+					c07Try(c, "ce.UnmarshalFromCTEDocument", text, t.name, func() error { _, err := ce.UnmarshalFromCTEDocument(text, t.t, cfg); return err })
+					if bin != nil {
+						c07Try(c, "ce.UnmarshalFromCBEDocument", bin, t.name, func() error { _, err := ce.UnmarshalFromCBEDocument(bin, t.t, cfg); return err })
+					}
+					c.Add("extreme_number_cases", 1)
+				}
+			}
+			c.Distinct("nontrivial", fmt.Sprintf("f9-%s-%d", coef, exp))
+		}
 	}
 }
 
